@@ -121,3 +121,255 @@ Example beamspread_client :
   OClient [TPiMinus (t_polar (t_inc_cart 1));
            TIadd (TNormDiff (pts 0) (pts 1)) (TNormDiff (pts 1) (pts 2))].
 Proof. vm_compute. reflexivity. Qed.
+
+(* ====================================================================== *)
+(* Extension: the call graph as data, the bookkeeping of helpers.Cache /    *)
+(* NoCache, the literal dictionary keys, from_path and several objects.    *)
+(* Model/CacheGraph.v, Proofs/CacheGraphProofs.v.  All axiom-free.          *)
+(*                                                                          *)
+(* `icall` is ONE interpreter of the table `shape_of` (which cached methods *)
+(* a method calls, in source order, with which index, where it returns None *)
+(* or raises) whose wrapper also performs Cache.__getitem__ / __setitem__ / *)
+(* NoCache.__setitem__ (hits, misses, counter, ignored, the reassignment    *)
+(* warning); `irun` runs histories with it.  `kcall` / `krun`               *)
+(* evaluate the same table on LISTS OF KEYS only (no arrays, no heap).      *)
+(* ====================================================================== *)
+From Coq Require Import String.
+From Arim Require Import Model.CacheGraph Proofs.CacheGraphProofs.
+
+(* the literal dictionary keys f"{name}:{idx}" identify (method, index): two different
+   methods, or two different indices, never share a key; the 17 names are distinct *)
+Theorem cache_key_strings_injective : forall k k', key_string k = key_string k' -> k = k'.
+Proof. exact key_string_inj. Qed.
+
+Theorem cache_method_names_distinct : NoDup (map meth_name all_meths).
+Proof. exact meth_names_nodup. Qed.
+
+(* the table-driven interpreter IS the machine of Model/Cache.v once the bookkeeping is
+   forgotten — for every one of the 17 methods, every index, every state; hence every
+   theorem above (cache_inv, cache_transparent, ...) speaks about it too *)
+Theorem graph_interpreter_refines_call : forall ifs uc m raw f x,
+  erase (icall ifs uc m raw f x) = call ifs uc m raw f (fst x).
+Proof. exact icall_refines_call. Qed.
+
+Theorem instrumented_run_refines_run : forall ifs uc ops,
+  (fst (irun ifs uc ops), fst (snd (irun ifs uc ops))) = run ifs uc ops.
+Proof. exact irun_refines_run. Qed.
+
+(* the call graph is acyclic (a callee has strictly smaller rank), stays inside the path
+   (valid index -> valid callee indices: the `idx - 1` / `idx + 1` uses are guarded by the
+   first / last tests) and no callee ever raises *)
+Theorem call_graph_acyclic_in_range : forall ifs m a d,
+  In d (callees ifs m a) ->
+  (rank (fst d) < rank m)%nat /\ (0 <= a < numif ifs -> 0 <= snd d < numif ifs) /\
+  raises ifs (fst d) (snd d) = false.
+Proof. exact callees_acyclic_in_range. Qed.
+
+(* cached evaluation = pure recursive evaluation of the call graph.
+   After ANY history, a further query (any method, any index spelling, final or not) changes
+   (cached keys in dictionary order, final keys, hits/misses/ignored/counter/warnings)
+   exactly as `kquery` says, and raises exactly when `kquery` says so ... *)
+Theorem query_is_graph_evaluation : forall ifs uc ops m raw f,
+  let x := snd (irun ifs uc ops) in
+  let p := icall ifs uc m raw f x in
+  abs (snd p) = snd (kquery ifs uc m raw f (krun ifs uc ops)) /\
+  is_err (fst p) = fst (kquery ifs uc m raw f (krun ifs uc ops)).
+Proof. exact CacheGraphProofs.query_is_graph_evaluation. Qed.
+
+(* ... and so, for every history (queries, both clears, precompute blocks, the four model
+   clients, write attempts), the keys of _cache IN DICTIONARY ORDER (most recent first),
+   _final_keys and the counters are those of the pure fold `krun` *)
+Theorem history_is_graph_fold : forall ifs uc ops,
+  keys_of (snd (run ifs uc ops)) = k_keys (krun ifs uc ops) /\
+  s_finals (snd (run ifs uc ops)) = k_finals (krun ifs uc ops) /\
+  snd (snd (irun ifs uc ops)) = k_stats (krun ifs uc ops).
+Proof. exact CacheGraphProofs.history_is_graph_fold. Qed.
+
+(* "Cache never reassigns" (DESIGN §9.6: was only checked at run time): in no history is
+   `self._cache[key] = res` executed for a key that is already present, so the warning
+   "Reassigning a cached value" of Cache.__setitem__ is never emitted *)
+Theorem cache_never_reassigns : forall ifs uc ops, st_warn (snd (snd (irun ifs uc ops))) = 0.
+Proof. exact never_reassigns. Qed.
+
+(* at most one entry per (method, interface): never more than 17 * numinterfaces entries *)
+Theorem cache_entries_bounded : forall ifs uc ops,
+  NoDup (keys_of (snd (run ifs uc ops))) /\
+  (List.length (s_cache (snd (run ifs uc ops))) <= 17 * List.length ifs)%nat /\
+  Forall (fun k => In (fst k) all_meths /\ 0 <= snd k < numif ifs) (keys_of (snd (run ifs uc ops))).
+Proof. exact entries_bounded. Qed.
+
+(* a use_cache=False object never holds an entry, whatever the history *)
+Theorem nocache_retains_nothing : forall ifs ops, s_cache (snd (run ifs false ops)) = [].
+Proof. exact CacheGraphProofs.nocache_retains_nothing. Qed.
+
+(* the counters: hits = size of `counter`; every stored entry (Cache) / every ignored store
+   (NoCache) was a miss; NoCache never hits; Cache never ignores and never warns in precompute *)
+Theorem cache_counters_consistent : forall ifs uc ops,
+  let y := krun ifs uc ops in
+  let st := snd (snd (irun ifs uc ops)) in
+  st_hits st = Z.of_nat (List.length (st_counter st)) /\
+  (if uc then Z.of_nat (List.length (k_keys y)) else st_ignored st) <= st_misses st /\
+  (uc = false -> st_hits st = 0 /\ st_counter st = []) /\
+  (uc = true -> st_ignored st = 0 /\ st_prewarn st = 0).
+Proof. exact counters_consistent. Qed.
+
+(* every value is computed at most once per query: the misses of one query are exactly the
+   entries it adds (Cache) / the stores it ignores (NoCache), plus one if its body raises *)
+Theorem query_miss_accounting : forall ifs uc m a (y : list key * stats),
+  let y1 := kcall ifs uc 5 (m, a) y in
+  (if uc then Z.of_nat (List.length (fst y1)) - Z.of_nat (List.length (fst y))
+   else st_ignored (snd y1) - st_ignored (snd y))
+  + (if uc && mem_key (m, a) (fst y) then 0 else if raises ifs m a then 1 else 0)
+  = st_misses (snd y1) - st_misses (snd y).
+Proof. exact miss_accounting. Qed.
+
+(* precompute() warns exactly once per block on a use_cache=False object, never otherwise *)
+Theorem precompute_warning_count : forall ifs uc ops,
+  st_prewarn (snd (snd (irun ifs uc ops))) = if uc then 0 else count_pre ops.
+Proof. exact precompute_warnings. Qed.
+
+(* clear_all_results brings the object back to the state of a new one: keys and finals
+   after `ops; clear_all_results(); ops'` are those after `ops'` alone *)
+Theorem clear_all_results_is_fresh : forall ifs uc ops ops',
+  keys_of (snd (run ifs uc (ops ++ ClearAll :: ops'))) = keys_of (snd (run ifs uc ops')) /\
+  s_finals (snd (run ifs uc (ops ++ ClearAll :: ops'))) = s_finals (snd (run ifs uc ops')).
+Proof. exact clear_all_is_fresh. Qed.
+
+(* key normalisation for EVERY decorated method: a successful query leaves its answer under
+   (method, RESOLVED index) — whatever the spelling of the index — and in the finals if final *)
+Theorem query_cached_under_resolved_key : forall ifs m raw f s v s',
+  call ifs true m raw f s = (Ok v, s') ->
+  exists a, resolved ifs raw = Some a /\ lookup (m, a) (s_cache s') = Some v /\
+            (f = true -> mem_key (m, a) (s_finals s') = true).
+Proof. exact query_stores. Qed.
+
+(* idempotence: asking again (same interface in any spelling, final or not) returns THE SAME
+   object and changes nothing but the promotion to final *)
+Theorem repeated_query_same_object : forall ifs m raw raw' f f' s v s',
+  call ifs true m raw f s = (Ok v, s') -> resolved ifs raw' = resolved ifs raw ->
+  exists a, resolved ifs raw = Some a /\
+            call ifs true m raw' f' s' = (Ok v, if f' then add_final (m, a) s' else s').
+Proof. exact query_twice. Qed.
+
+(* a final answer survives clear_intermediate_results: the same object afterwards *)
+Theorem final_answer_survives_clear : forall ifs m raw raw' f' s v s',
+  call ifs true m raw true s = (Ok v, s') -> resolved ifs raw' = resolved ifs raw ->
+  exists a, resolved ifs raw = Some a /\
+            call ifs true m raw' f' (clear_inter s')
+            = (Ok v, if f' then add_final (m, a) (clear_inter s') else clear_inter s').
+Proof. exact final_survives_clear. Qed.
+
+(* from_path raises ValueError without rays (no object is created) and otherwise makes a NEW
+   object with an empty cache and no finals *)
+Theorem from_path_fresh_or_error : forall uc w ifs,
+  from_path false uc = Err EValue /\ from_path true uc = Ok (uc, empty_state) /\
+  w_objs (wstep ifs w (WNew false uc)) = w_objs w /\
+  w_objs (wstep ifs w (WNew true uc)) =
+    w_objs w ++ [{| r_uc := uc; r_cache := []; r_finals := []; r_trace := []; r_hist := [] |}].
+Proof. exact from_path_spec. Qed.
+
+(* no shared state: any number of RayGeometry objects built from the same path (each with or
+   without cache) and used in ANY interleaving, their arrays living in one heap: every object
+   answers exactly the stateless closed form of ITS OWN history, and its keys and finals are
+   the pure fold of its own history *)
+Theorem objects_are_independent : forall ifs ops j ob,
+  nth_error (w_objs (wrun ifs ops)) j = Some ob ->
+  map e_obs (r_trace ob) = spec_run ifs (r_hist ob) /\
+  map fst (r_cache ob) = k_keys (krun ifs (r_uc ob) (r_hist ob)) /\
+  r_finals ob = k_finals (krun ifs (r_uc ob) (r_hist ob)).
+Proof. exact objects_independent. Qed.
+
+(* ---- non-vacuity and replayable values (see .work/prover_C14_TIE.md) ---- *)
+(* the call graph of a 3-interface path at the interior interface, and at the two ends *)
+Example callees_table_interior :
+  map (fun m => map (fun d => (meth_code (fst d), snd d)) (callees ex_ifs m 1)) all_meths
+  = [ []; []; [(0, 0); (0, 1)]; [(0, 0); (0, 1); (1, 1)]; [(3, 1)]; [(3, 1); (4, 1)]; [(3, 1)];
+      [(5, 1)]; [(6, 1); (5, 1)]; [(5, 1)];
+      [(0, 1); (0, 2); (1, 1)]; [(10, 1)]; [(10, 1); (11, 1)]; [(10, 1)]; [(12, 1)];
+      [(13, 1); (12, 1)]; [] ].
+Proof. vm_compute. reflexivity. Qed.
+
+Example callees_table_ends :
+  map (fun m => map (fun d => (meth_code (fst d), snd d)) (callees ex_ifs m 0)) all_meths
+  = [ []; []; []; []; [(3, 0)]; [(3, 0)]; [(3, 0)]; [(5, 0)]; [(6, 0)]; [];
+      [(0, 0); (0, 1); (1, 0)]; [(10, 0)]; [(10, 0); (11, 0)]; [(10, 0)]; [(12, 0)];
+      [(13, 0); (12, 0)]; [(12, 0)] ] /\
+  map (fun m => List.length (callees ex_ifs m 2)) all_meths
+  = [0; 0; 2; 3; 1; 2; 1; 1; 2; 1; 0; 1; 1; 1; 1; 1; 0]%nat.
+Proof. vm_compute. split; reflexivity. Qed.
+
+Example call_graph_acyclic_nonvacuous :
+  In (MIncLegRadius, 1) (callees ex_ifs MIncLegPolar 1) /\ rank MIncLegRadius = 2%nat /\ rank MIncLegPolar = 3%nat.
+Proof. vm_compute. intuition. Qed.
+
+(* one final query on a new cached object: dictionary in insertion order, counters *)
+Example signed_inc_angle_footprint :
+  let y := krun ex_ifs true [Query MSignedInc 1 true] in
+  map key_string (rev (k_keys y))
+  = ["leg_points:0"; "leg_points:1"; "orientations_of_legs_points:1"; "inc_leg_cartesian:1";
+     "inc_leg_azimuth:1"; "inc_leg_radius:1"; "inc_leg_polar:1"; "signed_inc_angle:1"]%string /\
+  map key_string (k_finals y) = ["signed_inc_angle:1"]%string /\
+  (st_hits (k_stats y), st_misses (k_stats y), st_ignored (k_stats y)) = (2, 8, 0) /\
+  map key_string (st_counter (k_stats y)) = ["inc_leg_cartesian:1"; "inc_leg_cartesian:1"]%string.
+Proof. vm_compute. repeat split; reflexivity. Qed.
+
+(* the same query without cache evaluates the whole call TREE: 16 misses, 16 ignored stores *)
+Example signed_inc_angle_uncached :
+  let y := krun ex_ifs false [Query MSignedInc 1 true] in
+  (k_keys y, map key_string (k_finals y),
+   (st_hits (k_stats y), st_misses (k_stats y), st_ignored (k_stats y)))
+  = ([], ["signed_inc_angle:1"]%string, (0, 16, 16)).
+Proof. vm_compute. reflexivity. Qed.
+
+(* a longer history with an error, a clear, a client and a precompute block that raises:
+   the instrumented machine and the pure fold agree (instance of history_is_graph_fold) *)
+(* ex_history (Model/CacheGraph.v): inc_angle(1); signed_inc_angle(-2, is_final=False);
+   clear_intermediate_results(); conventional_inc_angle(2); conventional_out_angle(1) [raises];
+   beamspread; with precompute(): out_angle(0); leg_points(7) [raises]; inc_leg_polar(-2, False) *)
+Example ex_history_counters :
+  (let st := snd (snd (irun ex_ifs true ex_history)) in
+   (st_hits st, st_misses st, st_ignored st, st_warn st, st_prewarn st)) = (14, 30, 0, 0, 0) /\
+  (let st := snd (snd (irun ex_ifs false ex_history)) in
+   (st_hits st, st_misses st, st_ignored st, st_warn st, st_prewarn st)) = (0, 77, 76, 0, 1) /\
+  List.length (keys_of (snd (run ex_ifs true ex_history))) = 21%nat /\
+  map key_string (s_finals (snd (run ex_ifs true ex_history)))
+  = ["out_angle:0"; "inc_leg_size:2"; "inc_leg_size:1"; "conventional_inc_angle:1";
+     "conventional_inc_angle:2"; "inc_angle:1"]%string.
+Proof. vm_compute. repeat split; reflexivity. Qed.
+
+(* hypotheses of the three theorems about repeated queries are satisfiable *)
+Example repeated_query_nonvacuous :
+  exists v s', call ex_ifs true MIncAngle (-2) true empty_state = (Ok v, s') /\
+               resolved ex_ifs 1 = resolved ex_ifs (-2) /\
+               call ex_ifs true MIncAngle 1 false (clear_inter s') = (Ok v, clear_inter s').
+Proof. eexists. eexists. vm_compute. repeat split; reflexivity. Qed.
+
+(* two cached objects and one uncached object from the same path, interleaved; a failed
+   from_path in between *)
+(* ex_world: Model/CacheGraph.v *)
+Example ex_world_objects :
+  let w := wrun ex_ifs ex_world in
+  map (fun ob => (r_uc ob, List.length (r_cache ob), map key_string (r_finals ob), List.length (r_hist ob)))
+      (w_objs w)
+  = [(true, 1%nat, ["inc_angle:1"]%string, 3%nat);
+     (true, 12%nat, ["inc_angle:1"]%string, 2%nat);
+     (false, 0%nat, ["inc_leg_size:2"; "inc_leg_size:1"; "conventional_inc_angle:1"; "inc_angle:1"]%string, 2%nat)] /\
+  w_errors w = [EValue].
+Proof. vm_compute. split; reflexivity. Qed.
+
+(* what clear_intermediate_results removes: it keeps exactly the cached keys that are final;
+   after a precompute() block that did not raise, every cached key is final *)
+Theorem clear_keeps_exactly_final_keys : forall s k,
+  In k (keys_of (clear_inter s)) <-> In k (keys_of s) /\ In k (s_finals s).
+Proof. exact clear_inter_keys. Qed.
+
+Theorem precompute_leaves_only_finals : forall ifs uc qs s k,
+  Forall (fun e => is_error (e_ans e) = false) (fst (run_pre ifs uc qs s)) ->
+  In k (keys_of (snd (run_pre ifs uc qs s))) -> In k (s_finals (snd (run_pre ifs uc qs s))).
+Proof. exact precompute_leaves_finals. Qed.
+
+Example precompute_leaves_only_finals_nonvacuous :
+  let p := run_pre ex_ifs true [(MIncAngle, 1, true); (MSignedInc, 1, false)] empty_state in
+  forallb (fun e => negb (is_error (e_ans e))) (fst p) = true /\
+  map key_string (keys_of (snd p)) = ["inc_angle:1"]%string.
+Proof. vm_compute. split; reflexivity. Qed.
